@@ -70,47 +70,52 @@ func init() {
 				}
 			}
 			r.Analysed = len(fns)
-			for _, fn := range fns {
-				eachCall(fn, func(c ssa.CallInstruction) {
-					if f := calleeFunc(c); f != nil && f.Pkg() != nil && f.Pkg().Path() == "io" {
-						switch f.Name() {
-						case "ReadFull", "ReadAtLeast", "ReadAll", "Copy", "CopyN":
-							r.okWhy(callKey(fn, c), p.Rel(c.Pos()), "a single Read call is not assumed to fill the buffer", "read made by io."+f.Name()+", which loops until the request is satisfied")
-							return
-						}
-					}
-					buf, ok := readerCall(c)
-					if !ok {
-						return
-					}
-					call, isCall := c.(*ssa.Call)
-					if !isCall {
-						return
-					}
-					key := callKey(fn, c)
-					what := "a single Read call is not assumed to fill the buffer"
-					// (ii) delegating Read method
-					root := fn
-					if root.Name() == "Read" && root.Signature.Recv() != nil && len(root.Params) == 2 && sameObject(buf, root.Params[1]) {
-						r.okWhy(key, p.Rel(c.Pos()), what, "delegating Read method: the short read is passed on to the caller")
-						return
-					}
-					// (iii) accumulate-in-loop
-					ok, why := accumulatingLoop(fn, call)
-					if ok {
-						r.okWhy(key, p.Rel(c.Pos()), what, why)
-						return
-					}
-					if why != "" {
-						r.bad(key, p.Rel(c.Pos()), what, funcName(fn)+": "+why)
-						return
-					}
-					r.bad(key, p.Rel(c.Pos()), what, fmt.Sprintf("%s calls Read once and continues as if the buffer were full: a transport that delivers fewer bytes (or the last bytes together with io.EOF) changes what is decoded", funcName(fn)))
-				})
-			}
+			fullReadScan(p, r, fns)
 			return nil
 		},
 	})
+}
+
+// fullReadScan places one obligation on every direct read of fns (see C18-a).
+func fullReadScan(p *Program, r *RuleResult, fns []*ssa.Function) {
+	for _, fn := range fns {
+		eachCall(fn, func(c ssa.CallInstruction) {
+			if f := calleeFunc(c); f != nil && f.Pkg() != nil && f.Pkg().Path() == "io" {
+				switch f.Name() {
+				case "ReadFull", "ReadAtLeast", "ReadAll", "Copy", "CopyN":
+					r.okWhy(callKey(fn, c), p.Rel(c.Pos()), "a single Read call is not assumed to fill the buffer", "read made by io."+f.Name()+", which loops until the request is satisfied")
+					return
+				}
+			}
+			buf, ok := readerCall(c)
+			if !ok {
+				return
+			}
+			call, isCall := c.(*ssa.Call)
+			if !isCall {
+				return
+			}
+			key := callKey(fn, c)
+			what := "a single Read call is not assumed to fill the buffer"
+			// (ii) delegating Read method
+			root := fn
+			if root.Name() == "Read" && root.Signature.Recv() != nil && len(root.Params) == 2 && sameObject(buf, root.Params[1]) {
+				r.okWhy(key, p.Rel(c.Pos()), what, "delegating Read method: the short read is passed on to the caller")
+				return
+			}
+			// (iii) accumulate-in-loop
+			ok, why := accumulatingLoop(fn, call)
+			if ok {
+				r.okWhy(key, p.Rel(c.Pos()), what, why)
+				return
+			}
+			if why != "" {
+				r.bad(key, p.Rel(c.Pos()), what, funcName(fn)+": "+why)
+				return
+			}
+			r.bad(key, p.Rel(c.Pos()), what, fmt.Sprintf("%s calls Read once and continues as if the buffer were full: a transport that delivers fewer bytes (or the last bytes together with io.EOF) changes what is decoded", funcName(fn)))
+		})
+	}
 }
 
 // accumulatingLoop: the Read call is in a loop; its byte count n flows into an
